@@ -20,16 +20,26 @@ pub fn harnesses() -> Vec<Harness> {
 }
 
 /// content classes: 0 = pseudo-random bytes (all chunks differ), 1 = all zeros, 2 = periodic with the period of a piece
-/// (1 and 2: several chunks of one data map are byte-identical and share one address)
+/// (1 and 2: several chunks of one data map can be byte-identical and share one address), 3 = piece-aligned blocks X Y X
 fn data_of(len: usize, class: usize) -> Bytes {
     let mut x: u32 = 0x9e37_79b9;
     let mut next = || { x ^= x << 13; x ^= x >> 17; x ^= x << 5; (x >> 8) as u8 };
     match class {
         0 => Bytes::from((0..len).map(|_| next()).collect::<Vec<u8>>()),
         1 => Bytes::from(vec![0u8; len]),
-        _ => {
+        2 => {
             let period: Vec<u8> = (0..PIECE).map(|_| next()).collect();
             Bytes::from((0..len).map(|i| period[i % PIECE]).collect::<Vec<u8>>())
+        }
+        _ => {
+            // blocks aligned with the pieces the source is cut into, in the pattern X Y X X Y X ...: equal pieces
+            // with different neighbours (their chunks differ although their source hashes are equal)
+            let mut v = Vec::with_capacity(len);
+            for (i, size) in crate::shim::self_encryption::piece_sizes(len).into_iter().enumerate() {
+                v.extend(std::iter::repeat(if i % 3 == 1 { 0xb1u8 } else { 0xa7u8 }).take(size));
+            }
+            v.truncate(len);
+            Bytes::from(v)
         }
     }
 }
@@ -51,7 +61,7 @@ fn c14_round_trip() {
     // quick tier: the first 12 lengths (up to two additional levels); thorough: all (three additional levels)
     let n_lens = std::env::var("C14_LENS").ok().and_then(|s| s.parse().ok()).unwrap_or(12);
     let len = lens[choice(n_lens.min(lens.len()))];
-    let class = choice(3);
+    let class = choice(4);
     let data = data_of(len, class);
     let res = crate::self_encryption::encrypt(data.clone());
     if len < crate::shim::self_encryption::MIN_ENCRYPTABLE_BYTES {
@@ -67,8 +77,8 @@ fn c14_round_trip() {
         }
     };
     let levels = shim::encrypt_calls() - 1;
-    cover(["random_content", "zero_content", "periodic_content"][class]);
-    note(format!("len={len} content={} additional_levels={levels} data_map_chunk={}B chunks={}", ["random", "zeros", "periodic"][class], root.serialised_size(), chunks.len()));
+    cover(["random_content", "zero_content", "periodic_content", "repeated_blocks_content"][class]);
+    note(format!("len={len} content={} additional_levels={levels} data_map_chunk={}B chunks={}", ["random", "zeros", "periodic", "blocks X Y X"][class], root.serialised_size(), chunks.len()));
     cover(["zero_levels", "one_level", "two_levels", "more_levels"][levels.min(3)]);
     // every produced chunk is within the maximum and addressed by the hash of its content
     check("chunks:data_map_chunk_within_maximum", SymU::<64>::konst(root.serialised_size().0 as u64).sle(t).0);
